@@ -780,7 +780,7 @@ def sources(body, operand_or_local, through=(), depth=60, _seen=None):
                 out.add(('call', cn, bb))
                 if 'r' in payload:
                     out.add(('call', payload['r'], bb))
-                if cn in through or payload.get('r') in through or cn.endswith('>::bits') or cn.endswith('>::from_bits_truncate'):
+                if cn in through or payload.get('r') in through or cn.endswith(('>::bits', '>::from_bits_truncate', '>::from_bits', '>::from_bits_retain')) or cn.startswith('num_traits::cast::FromPrimitive::from_'):
                     for a in payload['a']:
                         from_operand(a, d - 1)
             elif kind == 'yield':
